@@ -427,6 +427,8 @@ def build_module(D, importable=True, fail_kinds=(None,), max_items=7, allow_asyn
             kind = 'def'
         if helper and kind in ('deco', 'deco2') and D.chance(1, 2):
             kind = D.choice(['extdeco', 'ctxmgr'])
+        if helper and kind == 'comment' and D.bool():
+            kind = 'redefined'
         name = 'item{}'.format(i)
         if kind == 'def':
             m.emit_func('', name, name)
@@ -434,6 +436,14 @@ def build_module(D, importable=True, fail_kinds=(None,), max_items=7, allow_asyn
             m.emit_func('', name, name, is_async=True)
         elif kind == 'deco':
             m.emit_func('', name, name, decos=('deco',))
+        elif kind == 'redefined':
+            # the same name is bound twice: the documented definition is shadowed by a later undocumented one, so the
+            # live object has no doctest - and reading the source must come to the same conclusion (the later def wins)
+            m.emit_func('', name, name, collect=False, nested_ok=False)
+            m.add('def {}(self=None):'.format(name))
+            m.add('    return 2')
+            m.add('')
+            m.features.add('redefined_without_docstring')
         elif kind == 'extdeco':
             # a functools.wraps decorator that lives in another module
             m.emit_func('', name, name, decos=('helper_deco',))
